@@ -43,7 +43,7 @@ P("C09", "exploration",
 P("C10", "exploration",
   "case 0 = exhaustive GF(256) field check (all 65536 pairs vs bitwise carry-less reference); case 1 = uniformity of share values; "
   "then (t,n): all 1<=t<=n<=12, boundary pairs up to n=255, random pairs; per case threshold subsets (all when <=500), supersets, too-few, duplicate-index and index-0 sets; distinct = (t,n)",
-  [H("main", "h_crypto", 400, 40000, timeout_q=900)], [A_SAN, "split with n >= 200 runs in a forked child with a 6 s watchdog (a hang is a violation)"],
+  [H("main", "h_crypto", 400, 40000, timeout_q=900)], [A_SAN, "split with n >= 200 runs in a forked child; eight CPU seconds consumed without a result is a hang (violation), two minutes of wall time without that is a harness failure"],
   {"field.exhaustive-pairs": 65536, "split.n255": 2, "combine.duplicate-index-sets": 100})
 
 P("C12", "exploration",
